@@ -64,6 +64,9 @@ def _parse_cond_body(body, orig):
     m = re.match(r"^result\(\)\s*==?\s*'([^']*)'$", body)
     if m:
         return ["res_eq", m.group(1)]
+    m = re.match(r"^result\(\)\s*==?\s*(-?\d+)$", body)
+    if m:
+        return ["res_eq", int(m.group(1))]
     m = re.match(r"^" + _VAR + r"\s*<\s*(-?\d+)$", body)
     if m:
         return ["lt", _var(m, 1), int(m.group(5))]
@@ -93,6 +96,12 @@ def eval_cond(ast, status, result, ctx):
             return None if b is not False else False
         return a and b
     if k == "res_eq":
+        if isinstance(ast[1], int):
+            # YAQL/Jinja '=' between an int and a bool follows Python (0 == False); keep them apart
+            # only where the engine can: compare type-strictly unless the result is a bool
+            if isinstance(result, bool):
+                return None
+            return type(result) is int and result == ast[1]
         return result == ast[1]
     if k in ("lt", "ge"):
         if ctx is None or ast[1] not in ctx or not isinstance(ctx[ast[1]], int):
